@@ -273,6 +273,10 @@ def passwords_for(name, quick, seed):
     return out
 
 
+DEEP = 8
+CORE_LENGTHS = (0, 1, 7, 8, 9, 15, 16, 17, 31, 32, 33, 55, 56, 63, 64, 65, 72, 73, 111, 112, 127, 128, 129, 255, 256, 4096)
+
+
 def work(task):
     acc = Acc()
     name = task["hasher"]
@@ -284,11 +288,17 @@ def work(task):
         ctxs = [{}]
     else:
         ctxs = HS.ctx_grid(name, quick)
+    core_pws = [t for t in pws if t[0] in CORE_LENGTHS]
+    tail_pws = [t for t in core_pws if t[1] in ("empty", "ascii_mixed", "bytes_walk")]
     for si, settings in task["settings"]:
         for ci, ctx in enumerate(ctxs):
             if ci > 0 and si > 1 and len(ctxs) > 1:
                 continue
-            for pi, (L, label, val) in enumerate(pws):
+            # thorough: every length 0..130 on the first DEEP settings; the rest of the settings grid is crossed
+            # with the block-boundary lengths only (the password length and the rounds / salt-size axes meet in
+            # the digest-mixing loop, whose period is at most the digest size)
+            deep = quick or si < DEEP
+            for pi, (L, label, val) in enumerate(pws if deep else core_pws if si < 4 * DEEP else tail_pws):
                 # near-miss depth: full on the first setting(s) / first context, reduced elsewhere
                 wrapper = HS.base_name(name) != name and type(HS.handler(name)).__name__ == "PrefixWrapper"
                 nfull = 1 if quick else 2
@@ -303,6 +313,8 @@ def work(task):
                 if name in HS.SLOW and nm == "full" and HS.SLOW[name] >= 3:
                     nm = "reduced"
                 if name in HS.SLOW and HS.SLOW[name] >= 3 and quick and si > 0:
+                    nm = "none"
+                if not deep and si >= 4 * DEEP:
                     nm = "none"
                 case = {"hasher": name, "settings": settings, "ctx": ctx, "label": label, "password": val, "nm": nm}
                 acc.ev()
@@ -363,5 +375,7 @@ def run(ctx):
     skipped = [n for n in HS.all_names() if not HS.usable(n)]
     if skipped:
         ctx.assume(f"hashers without any backend on this host are not hashed here: {skipped}")
+    if not ctx.quick:
+        ctx.assume(f"thorough tier: every length 0..130 (+255, 256, 1000, 4095, 4096) x every content class on the first {DEEP} settings of each hasher; the remaining settings are crossed with the block-boundary lengths {list(CORE_LENGTHS)} (all content classes and near-miss passwords up to setting {4 * DEEP}, then one text and one non-UTF-8 bytes password per length)")
     if ctx.quick:
         ctx.assume("quick tier: settings grid thinned to <=12 entries per hasher; full near-miss set on the first two settings")
